@@ -273,7 +273,9 @@ func c01Locality(res *Result) {
 		skip    map[string]bool
 		partner func(sent string) string // the neighbour Y
 	}
-	col := func(attrs, sent string) string { return `<mj-column` + attrs + `><mj-text>` + sent + `</mj-text></mj-column>` }
+	col := func(attrs, sent string) string {
+		return `<mj-column` + attrs + `><mj-text>` + sent + `</mj-text></mj-column>`
+	}
 	fams := []family{
 		{"columns", "mj-column", col, func(k string) string { return "<mjml><mj-body><mj-section>" + k + "</mj-section></mj-body></mjml>" },
 			map[string]bool{"width": true, "mj-class": true}, func(sent string) string { return col("", sent) }},
@@ -293,7 +295,9 @@ func c01Locality(res *Result) {
 				return `<mj-table` + a + `><tr><td>` + sent + `</td></tr></mj-table>`
 			}
 			return `<` + leaf + a + `>` + sent + `</` + leaf + `>`
-		}, func(k string) string { return "<mjml><mj-body><mj-section><mj-column>" + k + "</mj-column></mj-section></mj-body></mjml>" },
+		}, func(k string) string {
+			return "<mjml><mj-body><mj-section><mj-column>" + k + "</mj-column></mj-section></mj-body></mjml>"
+		},
 			map[string]bool{"mj-class": true, "src": true, "css-class": leaf == "mj-divider" || leaf == "mj-spacer", "alt": leaf == "mj-image"},
 			func(sent string) string { return `<mj-text>` + sent + `</mj-text>` }})
 	}
